@@ -8,7 +8,7 @@ matrix = {}
 mp = "/tmp/matrix_seeded.txt"
 if os.path.exists(mp):
     cur = None
-    for line in open(mp):
+    for line in open(mp, errors="replace"):
         m = re.match(r"^(C\d+-[A-Z]) (C\d+) exit=(\d)", line)
         if m:
             cur = (m.group(1), m.group(2))
@@ -49,7 +49,7 @@ for d in sorted(glob.glob(os.path.join(V, "seeded", "C*-[A-Z]"))):
             verdicts[p] = {"caught": r["exit"] == 1, "exit": r["exit"], "findings": r["findings"][:2]}
     meta = {
         "id": name,
-        "round": 1 if name[-1] in "AB" else 2,
+        "round": {"A": 1, "B": 1, "C": 2, "D": 2}.get(name[-1], 3),
         "breaks_property": prop,
         "title": title,
         "files_changed": files,
